@@ -348,7 +348,10 @@ pub fn check_bytes(b: &[u8], strict: bool) -> Result<Seen, String> {
     );
     let parsed = g!("parse_indexed_from_slice", RamBundle::parse_indexed_from_slice(b));
     let (bundle, h) = match (parsed, header) {
-        (Err(_), None) => return Ok(seen),
+        (Err(_), None) => {
+            need!(g!("parse_indexed_from_vec", RamBundle::parse_indexed_from_vec(b.to_vec())).is_err(), "parse_indexed_from_vec = Ok on bytes parse_indexed_from_slice refuses");
+            return Ok(seen);
+        }
         (Ok(_), None) => {
             return Err(format!(
                 "parse_indexed_from_slice = Ok for {} bytes (leading magic field {:08x?}) without a complete header with the magic",
@@ -360,6 +363,26 @@ pub fn check_bytes(b: &[u8], strict: bool) -> Result<Seen, String> {
         (Ok(bundle), Some(h)) => (bundle, h),
     };
     seen.huge_count = h.count > (1 << 28);
+    // the owning entry point parses the same bytes the same way
+    if b.len() <= 4096 {
+        let owned = g!("parse_indexed_from_vec", RamBundle::parse_indexed_from_vec(b.to_vec()));
+        match owned {
+            Err(e) => return Err(format!("parse_indexed_from_vec = Err({e}) on bytes parse_indexed_from_slice accepts")),
+            Ok(o) => {
+                need!(g!("module_count (vec)", o.module_count()) as u64 == h.count, "parse_indexed_from_vec: module_count differs from the header field");
+                let a = g!("startup_code (vec)", o.startup_code().map(|c| c.to_vec()).map_err(|e| e.to_string()));
+                let c = g!("startup_code", bundle.startup_code().map(|c| c.to_vec()).map_err(|e| e.to_string()));
+                need!(a.is_ok() == c.is_ok() && (a.is_err() || a == c), "parse_indexed_from_vec: startup_code() differs from the slice entry point: {a:?} vs {c:?}");
+                for id in (0..h.count.min(16)).chain([h.count, h.count + 1]) {
+                    let x = g!("get_module (vec)", o.get_module(id as usize).map(|m| m.map(|m| m.data().to_vec())).map_err(|e| e.to_string()));
+                    let y = g!("get_module", bundle.get_module(id as usize).map(|m| m.map(|m| m.data().to_vec())).map_err(|e| e.to_string()));
+                    need!(x.is_ok() == y.is_ok() && (x.is_err() || x == y), "parse_indexed_from_vec: get_module({id}) differs from the slice entry point: {x:?} vs {y:?}");
+                }
+            }
+        }
+    } else if g!("parse_indexed_from_vec", RamBundle::parse_indexed_from_vec(b.to_vec())).is_err() {
+        return Err("parse_indexed_from_vec = Err on bytes parse_indexed_from_slice accepts".into());
+    }
 
     need!(g!("bundle_type", bundle.bundle_type()) == RamBundleType::Indexed, "bundle_type() is not Indexed");
     let count = g!("module_count", bundle.module_count());
